@@ -501,6 +501,28 @@ theorem integrate_all_translation_invariant (t : List Rat) (f : Fld) (hf : WF f)
   rw [this]
   rfl
 
+/-- `mean()` is linear in the field (two fields on one mesh). -/
+theorem mean_all_linear (α β : Rat) (f g : Fld) (hf : WF f) (hm : g.mesh = f.mesh)
+    (hn : g.nvdim = f.nvdim) (hs : g.data.shape = f.data.shape) :
+    ∃ vf vg, mean f .none = .ok (.vals vf) ∧ mean g .none = .ok (.vals vg) ∧
+      mean (lin α f β g) .none = .ok (.vals (tab f.nvdim fun c => α * vf.getD c 0 + β * vg.getD c 0)) := by
+  have hwl : WF (lin α f β g) := ⟨hf.1, hf.2⟩
+  have hwg : WF g := ⟨by rw [hm]; exact hf.1, by rw [hs, hm]; exact hf.2⟩
+  refine ⟨_, _, mean_all_eq f hf, mean_all_eq g hwg, ?_⟩
+  rw [mean_all_eq _ hwl]
+  congr 2
+  apply tab_congr
+  intro c hc
+  have hc : c < f.nvdim := hc
+  rw [getD_tab f.nvdim _ c 0 hc, getD_tab g.nvdim _ c 0 (by rw [hn]; exact hc), hm, hs]
+  show dV f.mesh * nestSum f.data.shape (fun i => cget (lin α f β g).data i c) / ratProd f.mesh.region.edges = _
+  rw [nestSum_congr _ _ _ (fun i _ => cget_lin α β f g i c hc), nestSum_add, nestSum_mul_left, nestSum_mul_left]
+  ring
+
+/-- `mean()` does not look at the mesh position at all. -/
+theorem mean_all_translation_invariant (t : List Rat) (f : Fld) :
+    mean (translate t f) .none = mean f .none := rfl
+
 /-! ## The successful branches are reached (total correctness without subregions) -/
 
 /-- `integrate(d)` succeeds for every direction of a well-formed field without subregions:
